@@ -24,7 +24,7 @@ End CallInd.
 
 (* ---------- unfolding equation of [run] in terms of [run_list] ---------- *)
 Definition call_step (name : option str) (allow : bool) (body : list call) (c : ctx) : ctx :=
-  let c0 := set_allow (frame_in c) allow in
+  let c0 := set_allow (frame_in c name) allow in
   let (c1, a) := enter name c0 in
   frame_out (
   match a with
@@ -51,7 +51,7 @@ Proof. induction l as [|t r IH]; intro c; [reflexivity | apply IH]. Qed.
 Lemma run_Call : forall c name allow body, run c (Call name allow body) = call_step name allow body c.
 Proof.
   intros c name allow body. unfold call_step. cbn [run].
-  destruct (enter name (set_allow (frame_in c) allow)) as [c1 a].
+  destruct (enter name (set_allow (frame_in c name) allow)) as [c1 a].
   rewrite !run_body_run_list. reflexivity.
 Qed.
 
@@ -62,15 +62,32 @@ Ltac break_ifs :=
          | |- context [match ?x with _ => _ end] => is_var x; destruct x
          end.
 
+Lemma depth_placeholder_same : forall n c,
+  stack (depth_placeholder n c) = stack c /\ depth (depth_placeholder n c) = depth c
+  /\ g_fell (depth_placeholder n c) = g_fell c /\ states (depth_placeholder n c) = aset (states c) n PhDepth.
+Proof. intros n c. repeat split; reflexivity. Qed.
+
+Lemma cycle_placeholder_same : forall n c,
+  stack (cycle_placeholder n c) = stack c /\ depth (cycle_placeholder n c) = depth c
+  /\ g_fell (cycle_placeholder n c) = g_fell c
+  /\ (states (cycle_placeholder n c) = states c \/ states (cycle_placeholder n c) = aset (states c) n PhCycle
+      \/ states (cycle_placeholder n c) = aset (states c) n PhSelf).
+Proof.
+  intros n c. unfold cycle_placeholder. cbv zeta.
+  destruct (should_store n (cycle_path n (stack c)));
+    destruct (allow_self c && is_direct (cycle_path n (stack c))); repeat split; auto.
+Qed.
+
 Lemma check_stack_depth : forall name c,
   stack (fst (check name c)) = stack c /\ depth (fst (check name c)) = depth c.
 Proof.
   intros name c. unfold check.
   destruct name as [n|]; [|split; reflexivity].
+  pose proof (depth_placeholder_same n c) as (D1 & D2 & _).
+  pose proof (cycle_placeholder_same n c) as (C1 & C2 & _).
   destruct (state_of c n); try (split; reflexivity);
-    (destruct (max_depth c <? depth c); [split; reflexivity|]);
-    (destruct (mem_str n (stack c)); [|split; reflexivity]);
-    cbv zeta; break_ifs; split; reflexivity.
+    (destruct (max_depth c <? depth c); [split; assumption|]);
+    (destruct (mem_str n (stack c)); split; try assumption; reflexivity).
 Qed.
 
 Lemma check_continue : forall n c c',
@@ -81,7 +98,7 @@ Proof.
   intros n c c' H. unfold check in H.
   destruct (state_of c n) eqn:Es; try discriminate;
     (destruct (max_depth c <? depth c) eqn:Ed; [discriminate|]);
-    (destruct (mem_str n (stack c)) eqn:Em; [cbv zeta in H; revert H; break_ifs; discriminate|]);
+    (destruct (mem_str n (stack c)) eqn:Em; [discriminate|]);
     inversion H; subst; apply N.ltb_ge in Ed; repeat split; auto.
 Qed.
 
@@ -276,8 +293,8 @@ Proof.
   - apply below_same; reflexivity.
   - apply below_same; reflexivity.
   - rewrite run_Call. unfold call_step. intro Hc.
-    destruct (enter name (set_allow (frame_in c) allow)) as [c1 a] eqn:E.
-    apply enter_spec in E. destruct E as [Hd Hs]. cbn [depth stack set_allow frame_in set_nest] in Hd, Hs.
+    destruct (enter name (set_allow (frame_in c name) allow)) as [c1 a] eqn:E.
+    apply enter_spec in E. destruct E as [Hd Hs]. cbn [depth stack set_allow frame_in set_nest note_entered] in Hd, Hs.
     pose proof (run_list_below body IH) as HL.
     assert (Hout : forall X, stack (frame_out X) = stack X /\ depth (frame_out X) = depth X) by (intro; split; reflexivity).
     cut (forall Y, below Y c1 ->
@@ -318,3 +335,398 @@ Theorem balanced_list : forall l c, rest c -> rest (run_list c l).
 Proof. intros l c. apply rest_of_below. apply run_list_below_all. Qed.
 
 (* the stronger reading is false: the stack after a call is NOT always the stack before it *)
+Example not_lifo :
+  exists c t, NoDup (stack c) /\ stack (run c t) <> stack c.
+Proof.
+  exists (set_state (set_stack (init 150) [[65]]) [65] InProgress), (Call (Some [65]) false []).
+  split; [constructor; [intros []|constructor] | vm_compute; discriminate].
+Qed.
+
+(* ---------- states: what the primitives do to schema_states ---------- *)
+Lemma state_of_set_state : forall c n s m,
+  state_of (set_state c n s) m = if str_eqb m n then s else state_of c m.
+Proof.
+  intros c n s m. unfold state_of, set_state. cbn [states set_states].
+  destruct (str_eqb m n) eqn:E.
+  - apply str_eqb_eq in E. subst m. rewrite alookup_aset_same. reflexivity.
+  - apply str_eqb_neq in E. rewrite alookup_aset_other by exact E. reflexivity.
+Qed.
+
+Definition same_core (c' c : ctx) : Prop :=
+  stack c' = stack c /\ states c' = states c /\ g_fell c' = g_fell c.
+
+Lemma same_core_state : forall c' c m, same_core c' c -> state_of c' m = state_of c m.
+Proof. intros c' c m (_ & H & _). unfold state_of. rewrite H. reflexivity. Qed.
+
+(* effect of unified_cycle_check on the state of an arbitrary name m *)
+Lemma state_of_aset : forall c c' n s m,
+  states c' = aset (states c) n s -> state_of c' m = if str_eqb m n then s else state_of c m.
+Proof.
+  intros c c' n s m H. unfold state_of. rewrite H.
+  destruct (str_eqb m n) eqn:E.
+  - apply str_eqb_eq in E. subst m. rewrite alookup_aset_same. reflexivity.
+  - apply str_eqb_neq in E. rewrite alookup_aset_other by exact E. reflexivity.
+Qed.
+
+Lemma check_states : forall name c m,
+  g_fell (fst (check name c)) = g_fell c /\
+  (state_of (fst (check name c)) m = state_of c m \/
+   (name = Some m /\
+    (state_of (fst (check name c)) m = PhDepth \/ state_of (fst (check name c)) m = PhCycle \/
+     state_of (fst (check name c)) m = PhSelf \/
+     (state_of (fst (check name c)) m = InProgress /\ snd (check name c) = AContinue)))).
+Proof.
+  intros name c m. unfold check.
+  destruct name as [n|]; [|split; [reflexivity | left; reflexivity]].
+  assert (K : forall c' s, states c' = aset (states c) n s ->
+              state_of c' m = state_of c m \/ (Some n = Some m /\ state_of c' m = s)).
+  { intros c' s H0. rewrite (state_of_aset c c' n s m H0). destruct (str_eqb m n) eqn:E.
+    - apply str_eqb_eq in E. subst m. right. split; reflexivity.
+    - left. reflexivity. }
+  pose proof (depth_placeholder_same n c) as (_ & _ & D3 & D4).
+  pose proof (cycle_placeholder_same n c) as (_ & _ & C3 & C4).
+  destruct (state_of c n) eqn:Es; try (split; [reflexivity | left; reflexivity]);
+    (destruct (max_depth c <? depth c);
+     [ cbn [fst snd]; split; [exact D3|];
+       destruct (K _ _ D4) as [H|[H1 H2]]; [left; exact H | right; split; [exact H1 | left; exact H2]]
+     | ]);
+    (destruct (mem_str n (stack c)); cbn [fst snd];
+     [ split; [exact C3|];
+       destruct C4 as [C4|[C4|C4]];
+       [ left; unfold state_of; rewrite C4; reflexivity
+       | destruct (K _ _ C4) as [H|[H1 H2]]; [left; exact H | right; split; [exact H1 | right; left; exact H2]]
+       | destruct (K _ _ C4) as [H|[H1 H2]]; [left; exact H | right; split; [exact H1 | right; right; left; exact H2]] ]
+     | split; [reflexivity|];
+       destruct (K (set_state c n InProgress) InProgress eq_refl) as [H|[H1 H2]];
+       [left; exact H | right; split; [exact H1 | right; right; right; split; [exact H2 | reflexivity]]] ]).
+Qed.
+
+(* [enter] = depth bump, [check], conditional push *)
+Lemma enter_unfold : forall name c c' a,
+  enter name c = (c', a) ->
+  exists c2, check name (set_depth c (depth c + 1)) = (c2, a)
+             /\ states c' = states c2 /\ g_fell c' = g_fell c2
+             /\ (stack c' = stack c2 \/
+                 exists n, name = Some n /\ truthy name = true /\ a = AContinue /\ stack c' = stack c2 ++ [n])
+             /\ (a = AContinue -> forall n, name = Some n -> truthy name = true -> stack c' = stack c2 ++ [n]).
+Proof.
+  intros name c c' a H. unfold enter in H.
+  destruct (check name (set_depth c (depth c + 1))) as [c2 a2]. exists c2.
+  destruct a2; destruct name as [n|]; try (inversion H; subst; repeat split; auto; intros; discriminate).
+  - destruct (truthy (Some n)) eqn:Et; inversion H; subst; repeat split; auto.
+    + right. exists n. repeat split; auto.
+    + intros _ n0 Hn _. inversion Hn; subst. reflexivity.
+    + intros _ n0 _ Hn. discriminate.
+Qed.
+
+(* effect of unified_exit_schema on the state of an arbitrary name m *)
+Lemma exit_states : forall name c m,
+  g_fell (exit name c) = g_fell c /\
+  (state_of (exit name c) m = state_of c m \/
+   (name = Some m /\ truthy name = true /\ state_of c m = InProgress /\ state_of (exit name c) m = Completed))
+  /\ (name = Some m -> truthy name = true -> state_of (exit name c) m <> InProgress).
+Proof.
+  intros name c m. unfold exit.
+  set (c1 := if 0 <? depth c then set_depth c (depth c - 1) else c).
+  assert (H1 : states c1 = states c /\ g_fell c1 = g_fell c) by (unfold c1; destruct (0 <? depth c); split; reflexivity).
+  destruct H1 as [H1 H1'].
+  assert (S1 : forall x, state_of c1 x = state_of c x) by (intro x; unfold state_of; rewrite H1; reflexivity).
+  destruct name as [n|]; [|repeat split; [exact H1' | left; apply S1 | intros; discriminate]].
+  destruct (truthy (Some n)) eqn:Et; [|repeat split; [exact H1' | left; apply S1 | intros; discriminate]].
+  cbv zeta.
+  set (c2 := if mem_str n (stack c1) then set_stack c1 (remove1 n (stack c1)) else c1).
+  assert (H2 : states c2 = states c /\ g_fell c2 = g_fell c)
+    by (unfold c2; destruct (mem_str n (stack c1)); split; assumption).
+  destruct H2 as [H2 H2'].
+  assert (S2 : forall x, state_of c2 x = state_of c x) by (intro x; unfold state_of; rewrite H2; reflexivity).
+  assert (L : alookup n (states c2) = Some InProgress <-> state_of c n = InProgress).
+  { rewrite <- S2. unfold state_of. destruct (alookup n (states c2)) as [s|]; split; intro H; try congruence; discriminate. }
+  destruct (alookup n (states c2)) as [[]|] eqn:El;
+    try (repeat split; [exact H2' | left; apply S2 |
+         intros Hn _; inversion Hn; subst m; rewrite S2; unfold state_of; rewrite <- H2, El; discriminate]).
+  repeat split.
+  - exact H2'.
+  - rewrite state_of_set_state. destruct (str_eqb m n) eqn:E.
+    + apply str_eqb_eq in E. subst m. right. repeat split; auto. apply L. reflexivity.
+    + left. apply S2.
+  - intros Hn _. inversion Hn; subst m. rewrite state_of_set_state, str_eqb_refl. discriminate.
+Qed.
+
+(* ---------- the tracker invariant ---------- *)
+Definition Inv (c : ctx) : Prop :=
+  NoDup (stack c)
+  /\ (forall n, n <> [] -> state_of c n = InProgress -> In n (stack c))
+  /\ (forall n, In n (stack c) -> state_of c n <> NotStarted /\ state_of c n <> Completed).
+
+Lemma Inv_init : forall md, Inv (init md).
+Proof.
+  intro md. repeat split; cbn; try constructor; try discriminate; try tauto.
+Qed.
+
+Lemma Inv_same_core : forall c' c, same_core c' c -> Inv c -> Inv c'.
+Proof.
+  intros c' c Hc (N & I1 & I3). pose proof Hc as (Hs & Hst & _).
+  unfold Inv. rewrite Hs. split; [exact N|]. split.
+  - intros n Hn H. rewrite (same_core_state c' c n Hc) in H. auto.
+  - intros n Hn. rewrite (same_core_state c' c n Hc). apply I3. exact Hn.
+Qed.
+
+Lemma truthy_nonempty : forall n, n <> [] -> truthy (Some n) = true.
+Proof. intros [|x l] H; [congruence | reflexivity]. Qed.
+
+Lemma enter_Inv : forall name c c' a, Inv c -> enter name c = (c', a) -> Inv c'.
+Proof.
+  intros name c c' a HI H.
+  set (cd := set_depth c (depth c + 1)).
+  assert (HId : Inv cd) by (apply (Inv_same_core cd c); [repeat split | exact HI]).
+  destruct HId as (N & I1 & I3).
+  apply enter_unfold in H. destruct H as (c2 & Hc & Hst & _ & Hstk & Hpush). fold cd in Hc.
+  pose proof (check_stack_depth name cd) as [Hs2 _]. rewrite Hc in Hs2. cbn [fst] in Hs2.
+  assert (S : forall m, state_of c' m = state_of c2 m) by (intro m; unfold state_of; rewrite Hst; reflexivity).
+  assert (CS : forall m, state_of c2 m = state_of cd m \/
+                 (name = Some m /\ (state_of c2 m = PhDepth \/ state_of c2 m = PhCycle \/ state_of c2 m = PhSelf
+                                    \/ (state_of c2 m = InProgress /\ a = AContinue)))).
+  { intro m. pose proof (check_states name cd m) as [_ K]. rewrite Hc in K. exact K. }
+  assert (Sub : incl (stack cd) (stack c')).
+  { rewrite <- Hs2. destruct Hstk as [E|(n & _ & _ & _ & E)]; rewrite E; [apply incl_refl | apply incl_appl, incl_refl]. }
+  split; [|split].
+  - destruct Hstk as [E|(n & Hn & Ht & Ha & E)]; rewrite E, Hs2; [exact N|].
+    subst name a. apply check_continue in Hc. destruct Hc as (Hm & _).
+    apply NoDup_app_intro_single; [exact N | apply mem_str_false; exact Hm].
+  - intros m Hm Hp. rewrite S in Hp. destruct (CS m) as [E|(Hn & [E|[E|[E|[E Ha]]]])]; try congruence.
+    + apply Sub. apply I1; [exact Hm | congruence].
+    + rewrite (Hpush Ha m Hn); [apply in_or_app; right; left; reflexivity|].
+      subst name. apply truthy_nonempty. exact Hm.
+  - intros m Hin. rewrite S.
+    assert (Old : In m (stack cd) -> state_of c2 m <> NotStarted /\ state_of c2 m <> Completed).
+    { intro Ho. destruct (CS m) as [E'|(_ & [E'|[E'|[E'|[E' _]]]])]; rewrite E'; try (split; discriminate).
+      apply I3. exact Ho. }
+    destruct Hstk as [E|(n & Hn & Ht & Ha & E)]; rewrite E, Hs2 in Hin; [exact (Old Hin)|].
+    apply in_app_or in Hin. destruct Hin as [Hin|[Hin|[]]]; [exact (Old Hin)|].
+    subst m name a. apply check_continue in Hc. destruct Hc as (_ & Hc & _). subst c2.
+    rewrite state_of_set_state, str_eqb_refl. split; discriminate.
+Qed.
+
+Lemma exit_Inv : forall name c, Inv c -> Inv (exit name c).
+Proof.
+  intros name c (N & I1 & I3). unfold Inv. rewrite exit_stack.
+  split; [apply exit_stack_nodup; exact N|]. split.
+  - intros m Hm Hp. pose proof (exit_states name c m) as (_ & [E|(_ & _ & _ & E)] & Hni); [|congruence].
+    rewrite E in Hp. pose proof (I1 m Hm Hp) as Hin.
+    unfold exit_stack_of. destruct name as [n|]; [|exact Hin].
+    destruct (truthy (Some n)) eqn:Et; [|exact Hin].
+    destruct (str_eq_dec m n) as [->|Hne]; [exfalso; apply (Hni eq_refl eq_refl); congruence|].
+    destruct (mem_str n (stack c)); [apply In_remove1_other; assumption | exact Hin].
+  - intros m Hin. pose proof (exit_stack_incl name (stack c) m Hin) as Hin0.
+    pose proof (exit_states name c m) as (_ & [E|(Hn & Ht & _ & _)] & _).
+    + rewrite E. apply I3. exact Hin0.
+    + exfalso. subst name. exact (exit_stack_notin m (stack c) Ht N Hin).
+Qed.
+
+(* the RETURN_EXISTING fall-through: reset to NOT_STARTED right after the balancing exit *)
+Lemma reset_Inv : forall n c,
+  Inv c -> ~ In n (stack c) -> Inv (add_fell (set_state c n NotStarted) n).
+Proof.
+  intros n c (N & I1 & I3) Hn. unfold Inv. cbn [stack add_fell set_state set_states].
+  assert (S : forall m, state_of (add_fell (set_state c n NotStarted) n) m = if str_eqb m n then NotStarted else state_of c m)
+    by (intro m; apply (state_of_aset c); reflexivity).
+  split; [exact N|]. split.
+  - intros m Hm Hp. rewrite S in Hp. destruct (str_eqb m n); [discriminate | auto].
+  - intros m Hin. rewrite S. destruct (str_eqb m n) eqn:E; [|apply I3; exact Hin].
+    apply str_eqb_eq in E. subst m. contradiction.
+Qed.
+
+Lemma run_list_Inv : forall l,
+  Forall (fun t => forall c, Inv c -> Inv (run c t)) l -> forall c, Inv c -> Inv (run_list c l).
+Proof. induction 1 as [|t r Ht _ IH]; intros c Hc; cbn [run_list]; auto. Qed.
+
+Theorem run_Inv : forall t c, Inv c -> Inv (run c t).
+Proof.
+  induction t as [k|k|name allow body IH] using call_ind2; intros c Hc.
+  - apply (Inv_same_core _ c); [repeat split | exact Hc].
+  - apply (Inv_same_core _ c); [repeat split | exact Hc].
+  - rewrite run_Call. unfold call_step.
+    pose proof (run_list_Inv body IH) as HL.
+    assert (H0 : Inv (set_allow (frame_in c name) allow)) by (apply (Inv_same_core _ c); [repeat split | exact Hc]).
+    destruct (enter name (set_allow (frame_in c name) allow)) as [c1 a] eqn:E.
+    pose proof (enter_Inv _ _ _ _ H0 E) as H1.
+    assert (Out : forall X, Inv X -> Inv (frame_out X)) by (intros X HX; apply (Inv_same_core _ X); [repeat split | exact HX]).
+    apply Out. destruct a.
+    + apply exit_Inv, HL, H1.
+    + apply exit_Inv, H1.
+    + apply exit_Inv, H1.
+    + pose proof (exit_Inv name c1 H1) as H2. destruct name as [n|].
+      * destruct (truthy (Some n)) eqn:Et.
+        -- destruct (registered (exit (Some n) c1) n); [exact H2|].
+           apply exit_Inv, HL, reset_Inv; [exact H2|].
+           rewrite exit_stack. apply exit_stack_notin; [exact Et | apply H1].
+        -- apply exit_Inv, HL, H2.
+      * apply exit_Inv, HL, H2.
+Qed.
+
+Theorem run_list_Inv_all : forall l c, Inv c -> Inv (run_list c l).
+Proof. intros l. apply run_list_Inv. apply Forall_forall. intros t _. apply run_Inv. Qed.
+
+(* ---------- every entered schema is touched: its state left NOT_STARTED for good, unless it fell through ---------- *)
+Definition touched (n : str) (c : ctx) : Prop := state_of c n <> NotStarted \/ In n (g_fell c).
+Definition all_touched (c : ctx) : Prop := forall n, In n (g_entered c) -> touched n c.
+
+Lemma check_entered : forall name c, g_entered (fst (check name c)) = g_entered c.
+Proof.
+  intros name c. unfold check. destruct name as [n|]; [|reflexivity].
+  assert (C : g_entered (cycle_placeholder n c) = g_entered c).
+  { unfold cycle_placeholder. cbv zeta. destruct (should_store n (cycle_path n (stack c)));
+      destruct (allow_self c && is_direct (cycle_path n (stack c))); reflexivity. }
+  destruct (state_of c n); try reflexivity;
+    (destruct (max_depth c <? depth c); [reflexivity|]);
+    (destruct (mem_str n (stack c)); [exact C | reflexivity]).
+Qed.
+
+Lemma enter_entered : forall name c c' a, enter name c = (c', a) -> g_entered c' = g_entered c.
+Proof.
+  intros name c c' a H. unfold enter in H.
+  pose proof (check_entered name (set_depth c (depth c + 1))) as K.
+  destruct (check name (set_depth c (depth c + 1))) as [c2 a2]. cbn [fst] in K.
+  destruct a2; destruct name as [n|]; try (inversion H; subst; exact K).
+  destruct (truthy (Some n)); inversion H; subst; exact K.
+Qed.
+
+Lemma exit_entered : forall name c, g_entered (exit name c) = g_entered c.
+Proof.
+  intros name c. unfold exit.
+  assert (H1 : g_entered (if 0 <? depth c then set_depth c (depth c - 1) else c) = g_entered c)
+    by (destruct (0 <? depth c); reflexivity).
+  destruct name as [n|]; [|exact H1].
+  destruct (truthy (Some n)); [|exact H1]. cbv zeta.
+  destruct (mem_str n (stack (if 0 <? depth c then set_depth c (depth c - 1) else c)));
+    match goal with |- context [alookup ?k ?d] => destruct (alookup k d) as [[]|] end; exact H1.
+Qed.
+
+Lemma check_touches : forall n c, Inv c -> state_of (fst (check (Some n) c)) n <> NotStarted.
+Proof.
+  intros n c (_ & _ & I3). unfold check.
+  pose proof (depth_placeholder_same n c) as (_ & _ & _ & D4).
+  pose proof (cycle_placeholder_same n c) as (_ & _ & _ & C4).
+  assert (A : forall c' s, states c' = aset (states c) n s -> state_of c' n = s)
+    by (intros c' s H; rewrite (state_of_aset c c' n s n H), str_eqb_refl; reflexivity).
+  destruct (state_of c n) eqn:Es; cbn [fst]; try (rewrite Es; discriminate);
+    (destruct (max_depth c <? depth c); [cbn [fst]; rewrite (A _ _ D4); discriminate|]);
+    (destruct (mem_str n (stack c)) eqn:Em; cbn [fst];
+     [ destruct C4 as [C4|[C4|C4]];
+       [ unfold state_of; rewrite C4; apply mem_str_In in Em; apply (I3 n Em)
+       | rewrite (A _ _ C4); discriminate | rewrite (A _ _ C4); discriminate ]
+     | rewrite state_of_set_state, str_eqb_refl; discriminate ]).
+Qed.
+
+Lemma touched_enter : forall m name c c' a, enter name c = (c', a) -> touched m c -> touched m c'.
+Proof.
+  intros m name c c' a H [T|T].
+  - apply enter_unfold in H. destruct H as (c2 & Hc & Hst & _).
+    left. unfold state_of. rewrite Hst. fold (state_of c2 m).
+    pose proof (check_states name (set_depth c (depth c + 1)) m) as [_ K]. rewrite Hc in K. cbn [fst snd] in K.
+    destruct K as [E|(_ & [E|[E|[E|[E _]]]])]; rewrite E; try discriminate. exact T.
+  - right. apply enter_unfold in H. destruct H as (c2 & Hc & _ & Hf & _). rewrite Hf.
+    pose proof (check_states name (set_depth c (depth c + 1)) m) as [K _]. rewrite Hc in K. cbn [fst] in K.
+    rewrite K. exact T.
+Qed.
+
+Lemma touched_exit : forall m name c, touched m c -> touched m (exit name c).
+Proof.
+  intros m name c [T|T]; pose proof (exit_states name c m) as (Hf & [E|(_ & _ & _ & E)] & _).
+  - left. rewrite E. exact T.
+  - left. rewrite E. discriminate.
+  - right. rewrite Hf. exact T.
+  - right. rewrite Hf. exact T.
+Qed.
+
+Lemma touched_reset : forall m n c, touched m c -> touched m (add_fell (set_state c n NotStarted) n).
+Proof.
+  intros m n c T. unfold touched. cbn [g_fell add_fell set_state set_states].
+  destruct (str_eq_dec m n) as [->|Hne]; [right; apply in_or_app; right; left; reflexivity|].
+  destruct T as [T|T]; [left | right; apply in_or_app; left; exact T].
+  rewrite (state_of_aset c (add_fell (set_state c n NotStarted) n) n NotStarted m) by reflexivity.
+  apply str_eqb_neq in Hne. rewrite Hne. exact T.
+Qed.
+
+Lemma touched_same_core : forall m c' c, same_core c' c -> touched m c -> touched m c'.
+Proof.
+  intros m c' c Hc T. pose proof Hc as (_ & _ & Hf). unfold touched.
+  rewrite (same_core_state c' c m Hc), Hf. exact T.
+Qed.
+
+Definition good (c : ctx) : Prop := Inv c /\ all_touched c.
+
+Lemma good_same_core : forall c' c, same_core c' c -> g_entered c' = g_entered c -> good c -> good c'.
+Proof.
+  intros c' c Hc He [HI HT]. split; [eapply Inv_same_core; eassumption|].
+  intros n Hn. rewrite He in Hn. eapply touched_same_core; [exact Hc | apply HT; exact Hn].
+Qed.
+
+Lemma good_exit : forall name c, good c -> good (exit name c).
+Proof.
+  intros name c [HI HT]. split; [apply exit_Inv; exact HI|].
+  intros n Hn. rewrite exit_entered in Hn. apply touched_exit, HT, Hn.
+Qed.
+
+Lemma good_run_list : forall l,
+  Forall (fun t => forall c, good c -> good (run c t)) l -> forall c, good c -> good (run_list c l).
+Proof. induction 1 as [|t r Ht _ IH]; intros c Hc; cbn [run_list]; auto. Qed.
+
+Theorem run_good : forall t c, good c -> good (run c t).
+Proof.
+  induction t as [k|k|name allow body IH] using call_ind2; intros c Hc.
+  - apply (good_same_core _ c); [repeat split | reflexivity | exact Hc].
+  - apply (good_same_core _ c); [repeat split | reflexivity | exact Hc].
+  - rewrite run_Call. unfold call_step.
+    pose proof (good_run_list body IH) as HL.
+    set (c0 := set_allow (frame_in c name) allow).
+    assert (Hcore : same_core c0 c) by (repeat split).
+    assert (H0 : Inv c0) by (apply (Inv_same_core _ c); [exact Hcore | apply Hc]).
+    destruct (enter name c0) as [c1 a] eqn:E.
+    assert (H1 : good c1).
+    { split; [exact (enter_Inv _ _ _ _ H0 E)|].
+      intros m Hm. rewrite (enter_entered _ _ _ _ E) in Hm.
+      assert (Hm' : In m (g_entered c) \/ name = Some m).
+      { unfold c0 in Hm. cbn [g_entered set_allow frame_in note_entered set_nest] in Hm.
+        destruct name as [n|]; [|left; exact Hm].
+        apply in_app_or in Hm. destruct Hm as [Hm|[Hm|[]]]; [left; exact Hm | right; congruence]. }
+      destruct Hm' as [Hm'|Hm'].
+      - eapply touched_enter; [exact E|]. eapply touched_same_core; [exact Hcore|]. apply Hc. exact Hm'.
+      - subst name. left. pose proof E as E'. apply enter_unfold in E'. destruct E' as (c2 & Hck & Hst & _).
+        unfold state_of. rewrite Hst. fold (state_of c2 m).
+        assert (Hd : Inv (set_depth c0 (depth c0 + 1))) by (apply (Inv_same_core _ c0); [repeat split | exact H0]).
+        pose proof (check_touches m _ Hd) as K. rewrite Hck in K. exact K. }
+    assert (Out : forall X, good X -> good (frame_out X))
+      by (intros X HX; apply (good_same_core _ X); [repeat split | reflexivity | exact HX]).
+    apply Out. destruct a.
+    + apply good_exit, HL, H1.
+    + apply good_exit, H1.
+    + apply good_exit, H1.
+    + pose proof (good_exit name c1 H1) as H2. destruct name as [n|].
+      * destruct (truthy (Some n)) eqn:Et.
+        -- destruct (registered (exit (Some n) c1) n); [exact H2|].
+           apply good_exit, HL. split.
+           ++ apply reset_Inv; [apply H2|]. rewrite exit_stack. apply exit_stack_notin; [exact Et | apply H1].
+           ++ intros m Hm. apply touched_reset. apply H2. exact Hm.
+        -- apply good_exit, HL, H2.
+      * apply good_exit, HL, H2.
+Qed.
+
+Theorem run_list_good : forall l c, good c -> good (run_list c l).
+Proof. intros l. apply good_run_list. apply Forall_forall. intros t _. apply run_good. Qed.
+
+Lemma good_init : forall md, good (init md).
+Proof. intro md. split; [apply Inv_init | intros n []]. Qed.
+
+(* ---------- C08, terminal states ---------- *)
+(* At rest, a schema that was entered is in a terminal state unless it took the fall-through (F08b)
+   or is the empty name (F08d). *)
+Theorem terminal_or_fell : forall c n,
+  good c -> rest c -> In n (g_entered c) -> n <> [] ->
+  terminal (state_of c n) = true \/ In n (g_fell c).
+Proof.
+  intros c n [(_ & I1 & _) HT] [Hs _] Hn Hne.
+  destruct (HT n Hn) as [T|T]; [|right; exact T].
+  left. destruct (state_of c n) eqn:E; try reflexivity; [congruence|].
+  exfalso. pose proof (I1 n Hne E) as Hin. rewrite Hs in Hin. exact Hin.
+Qed.
